@@ -75,6 +75,7 @@ def _c07_floors(m, tier):
     if len(m.cov.get("digest_key_pairs", {})) < 49 * 50:
         out.append("not all 49x50 (digest,key) length pairs visited: %d" % len(m.cov.get("digest_key_pairs", {})))
     out += need(m, "increment_len", range(65), "sodium_increment lengths")
+    out += need(m, "long_input_len", [4096, 65536], "multi-KiB inputs")
     return out
 
 
@@ -340,8 +341,8 @@ PROPS["C03"] = dict(
 
 def _c04_floors(m, tier):
     out = []
-    if len(m.cov.get("entry_point", {})) < 17:
-        out.append("only %d of 17 entry-point groups driven" % len(m.cov.get("entry_point", {})))
+    if len(m.cov.get("entry_point", {})) < 21:
+        out.append("only %d of 21 entry-point groups (17 stable + 4 heap/locked) driven" % len(m.cov.get("entry_point", {})))
     out += need(m, "stream_tag_byte", range(256), "authentic stream messages with every tag byte")
     out += need(m, "content_class", ["zeros", "ff", "random", "valid_prefix", "valid_mutated", "valid"], "content classes")
     out += need(m, "pwhash_family", ["grammar", "structural_mutation", "parameter_list", "base64", "random_bytes(lossy utf8)", "separator_runs", "valid", "valid_one_char_mutated", "single_edit_insert", "single_edit_replace", "single_edit_delete"], "password-string families")
@@ -352,15 +353,67 @@ def _c04_floors(m, tier):
     return out
 
 
+def _fuzz_c04(ctx):
+    """libFuzzer (cargo-fuzz, AddressSanitizer on) in front of the C04 entry points: a coverage-guided workload generator.
+    Only crashes (panics, sanitizer reports, the absurd-allocation assertion) count; timeouts and OOMs are ignored."""
+    import glob
+    import re
+    import shutil
+    import subprocess
+    m = ctx["m"]
+    secs = 150 if ctx["tier"] == "thorough" else 20
+    fz = os.path.join(ctx["root"], "harness", "fuzz")
+    work = os.path.join(ctx["cache"], "fuzz-c04")
+    shutil.rmtree(work, ignore_errors=True)
+    os.makedirs(os.path.join(work, "corpus"))
+    os.makedirs(os.path.join(work, "artifacts"))
+    env = dict(ctx["env"])
+    env["CARGO_TARGET_DIR"] = os.path.join(ctx["cache"], "target-fuzz")
+    b = subprocess.run(["cargo", "+nightly", "fuzz", "build", "c04"], cwd=fz, env=env, stdout=subprocess.PIPE, stderr=subprocess.STDOUT, text=True)
+    if b.returncode != 0:
+        m.problems.append("cargo fuzz build failed: " + b.stdout[-500:].replace("\n", " | "))
+        return
+    cmd = ["cargo", "+nightly", "fuzz", "run", "c04", os.path.join(work, "corpus"), "--", "-max_total_time=%d" % secs, "-fork=16", "-timeout=10",
+           "-len_control=0", "-max_len=600", "-seed=%d" % ctx["seed"], "-dict=" + os.path.join(fz, "c04.dict"), "-artifact_prefix=" + os.path.join(work, "artifacts") + "/"]
+    try:
+        p = subprocess.run(cmd, cwd=fz, env=env, stdout=subprocess.PIPE, stderr=subprocess.STDOUT, text=True, timeout=secs + 900, errors="replace")
+        out = p.stdout
+    except subprocess.TimeoutExpired as e:
+        m.problems.append("libFuzzer run hit the wall-clock watchdog")
+        return
+    stats = re.findall(r"#(\d+): cov: (\d+) ft: (\d+) corp: (\d+)", out)
+    execs, cov, ft, corp = (int(x) for x in stats[-1]) if stats else (0, 0, 0, 0)
+    crashes = sorted(glob.glob(os.path.join(work, "artifacts", "crash-*")))
+    for c in crashes[:5]:
+        data = open(c, "rb").read()
+        # reproduce once to get the message
+        r = subprocess.run(["cargo", "+nightly", "fuzz", "run", "c04", c, "--", "-runs=1"], cwd=fz, env=env, stdout=subprocess.PIPE, stderr=subprocess.STDOUT, text=True, errors="replace")
+        msg = re.search(r"panicked at ([^\n]+)\n([^\n]*)", r.stdout)
+        san = re.search(r"ERROR: AddressSanitizer: ([\w-]+)", r.stdout)
+        where = (msg.group(1).split(":")[0] if msg else (san.group(1) if san else "unknown"))
+        keep = os.path.join(ctx["root"], "replays", "C04-fuzz-" + os.path.basename(c))
+        shutil.copy(c, keep)
+        m.add_viol("C04|libfuzzer_crash|%s" % where.replace("/repo/", ""), 1,
+                   {"input_hex": data[:200].hex(), "selector_byte": data[0] if data else None, "panic": (msg.group(0)[:400] if msg else None), "sanitizer": san.group(0) if san else None,
+                    "artifact": os.path.relpath(keep, ctx["root"])},
+                   dict(seed=ctx["seed"], tier=ctx["tier"], monitor="libfuzzer:c04", build="fuzz+asan", shard=-1, nshards=16))
+    if execs == 0:
+        m.problems.append("libFuzzer reported no executions: " + out[-400:].replace("\n", " | "))
+    m.evals += execs
+    ctx["extra_cov"]["libfuzzer"] = dict(seconds=secs, executions=execs, coverage_edges=cov, features=ft, corpus_entries=corp, crashes=len(crashes),
+                                         ignored=dict(timeouts=len(glob.glob(os.path.join(work, "artifacts", "timeout-*"))), ooms=len(glob.glob(os.path.join(work, "artifacts", "oom-*")))))
+    shutil.rmtree(work, ignore_errors=True)
+
+
 PROPS["C04"] = dict(
     level="exploration",
     technique="runtime totality monitoring: every attacker-facing entry point executed on generated byte strings (every length x content class, every stream tag byte, grammar-based password strings) under catch_unwind, a fatal-signal reporter and a counting allocator, in an overflow-checked and a plain release build",
-    level_text="17 groups of opening / verifying / parsing entry points (classic and object API) receive every input length 0..=2*overhead+64 in six content classes (zeros, 0xff, random, valid prefix, "
+    level_text="21 groups of opening / verifying / parsing entry points (classic and object API; 4 of them with heap / locked containers on nightly) receive every input length 0..=2*overhead+64 in six content classes (zeros, 0xff, random, valid prefix, "
                "valid with one bit flipped, valid), authentic stream messages with all 256 tag bytes through both pull APIs, and password-hash strings from a field grammar with structural, numeric, "
                "base64 and unicode mutations. A panic, a fatal signal, an arithmetic-overflow panic (overflow-checked build) or a single allocation request above 64*len+1MiB is a violation. "
                "Run twice because an unchecked subtraction panics in one build and requests ~2^64 bytes in the other.",
     level_note="Password verification is only attempted when every m=/t= number in the string is within the bounded-cost cap (m<=1024 KiB, t<=3), as the property's 'bounded cost parameters' allows; parsing paths run on all strings.",
-    runs=lambda tier: [dict(build="st", monitor="c04"), dict(build="st-rel", monitor="c04")] + ([dict(kind="custom", fn=_MIRI("c04"))] if tier == "thorough" else []),
+    runs=lambda tier: [dict(build="st", monitor="c04"), dict(build="st-rel", monitor="c04"), dict(build="ni", monitor="c04", opts=NI_ONLY)] + ([dict(kind="custom", fn=_MIRI("c04")), dict(kind="custom", fn=_fuzz_c04)] if tier == "thorough" else []),
     floors=_c04_floors,
     rule="a case is (entry-point group, input bytes); distinct by (entry point, length, content class, repetition) / (tag byte, message length) / generated string index; "
          "non-trivial: all (every call reaches the function under test with caller-side buffers sized as documented)",
@@ -507,8 +560,8 @@ def _c14_floors(m, tier):
     for L in (0, 1, 16, 32, 64, 4095, 4096, 4097, 8192, 8193):
         if str(L) not in lens:
             out.append("length %d never used" % L)
-    if len(m.cov.get("constructor", {})) < 11:
-        out.append("not all 11 constructors used")
+    if len(m.cov.get("constructor", {})) < 15:
+        out.append("not all 15 constructors used")
     if not m.cov.get("fork_probe"):
         out.append("no forked-child access probe was performed")
     return out[:12]
@@ -673,7 +726,7 @@ def _asan(monitor, corpus_tier="quick", nshards=16):
 PROPS["C14"] = dict(
     level="exploration",
     technique="runtime invariant monitoring: operation sequences over the protected-memory type-state graph executed against the real allocator; after every step an executable model is compared with the kernel's view (/proc/self/maps page rights, smaps VM_LOCKED flags, VmLck, EFAULT byte probes, forked children that must SIGSEGV) and contents; valgrind memcheck over a reduced corpus",
-    level_text="All operation sequences up to depth 3 (quick) / 4 (thorough) over {mlock, munlock, read-only, read-write, no-access, clone, resize down/up, write, drop} from each of 11 constructors, for region "
+    level_text="All operation sequences up to depth 3 (quick) / 4 (thorough) over {mlock, munlock, read-only, read-write, no-access, clone, resize down/up, write, drop} from each of 15 constructors, for region "
                "lengths 0, 1, 16, 32, 64, page-1, page, page+1, 2*page, 2*page+1 and both containers, plus seeded random sequences of depth 10-12 with up to four regions alive; after every step each page holding "
                "data must have exactly the advertised rights, be locked iff the type says so, be fenced by guard pages, keep its contents, and after the last drop nothing stays locked or protected. "
                "Bounded-exhaustive within the depth, sampling beyond.",
@@ -723,8 +776,8 @@ PROPS["C15"] = dict(
 
 def _c19_floors(m, tier):
     out = []
-    if len(m.cov.get("constructor", {})) < 11:
-        out.append("not all 11 sequence constructors exercised")
+    if len(m.cov.get("constructor", {})) < 15:
+        out.append("not all 15 sequence constructors exercised")
     if len(m.cov.get("object_constructor", {})) < 22:
         out.append("only %d of 22 Result-returning object constructors (incl. 5 deserialisations into locked containers) exercised" % len(m.cov.get("object_constructor", {})))
     out += need(m, "fail_from_k", ["0", "1", "2"], "fault positions k")
@@ -738,7 +791,7 @@ def _c19_floors(m, tier):
 PROPS["C19"] = dict(
     level="fault_enumeration",
     technique="runtime fault enumeration: an in-binary interposer on mlock() refuses the k-th and all later lock requests; each operation sequence is measured fault-free (n lock requests) and re-run for every k < n; oracle = no panic inside Result-returning constructors/transitions, survivors still agree with the C14 model (page rights, VM_LOCKED, VmLck, contents), nothing unwiped or locked remains after drop",
-    level_text="For every operation sequence up to depth 2 (quick) / 3 (thorough) from 11 constructors over all region lengths, for seeded random sequences with several regions alive, and for 22 Result-returning object "
+    level_text="For every operation sequence up to depth 2 (quick) / 3 (thorough) from 15 constructors over all region lengths, for seeded random sequences with several regions alive, and for 22 Result-returning object "
                "constructors (locked key pairs, precomputed keys, read-only variants), every fault position k is enumerated. A panic in clone/resize/Default, whose signatures cannot report an error, is an allowed outcome; "
                "the cleanliness checks still run while unwinding.",
     level_note="The fault is injected by defining `mlock` in the monitor executable (it forwards to the real system call when not failing), which is equivalent to an LD_PRELOAD interposer but also works under valgrind; "
